@@ -163,3 +163,53 @@ func actionIDs(c *Check, r *Repo) {
 		strings.Join(bad, "; "))
 	_ = types.Typ
 }
+
+// operands: the operand stack of the builder, top first — the front of the
+// tree's own list, or a field of the tree that is a slice of nodes when the
+// builder keeps its operands apart from the finished items.
+func (fm *frontModel) operands() []*Obj {
+	for i := 0; i < fm.tree.st.NumFields(); i++ {
+		ft := fm.tree.st.Field(i).Type()
+		sl, ok := ft.Underlying().(*types.Slice)
+		if !ok {
+			continue
+		}
+		pt, ok := sl.Elem().(*types.Pointer)
+		if !ok {
+			continue
+		}
+		if n, ok := pt.Elem().(*types.Named); !ok || n.Obj().Name() != "node" {
+			continue
+		}
+		name := fm.tree.st.Field(i).Name()
+		if name == "Actions" || name == "RuleNames" {
+			continue // lists the second pass fills, not the builder's operands
+		}
+		var out []*Obj
+		if s, ok := fm.tree.fields[i].v.(*SliceV); ok && s != nil {
+			for k := len(s.elems) - 1; k >= 0; k-- {
+				if o, ok := s.elems[k].(*Obj); ok && o != nil {
+					out = append(out, o)
+				}
+			}
+		}
+		return out
+	}
+	return fm.m.kids(fm.tree.field("node").v.(*Obj))
+}
+
+// separateOperands: does the builder keep its operands in a field of their own?
+func (fm *frontModel) separateOperands() bool {
+	for i := 0; i < fm.tree.st.NumFields(); i++ {
+		if sl, ok := fm.tree.st.Field(i).Type().Underlying().(*types.Slice); ok {
+			if pt, ok := sl.Elem().(*types.Pointer); ok {
+				if n, ok := pt.Elem().(*types.Named); ok && n.Obj().Name() == "node" {
+					if name := fm.tree.st.Field(i).Name(); name != "Actions" && name != "RuleNames" {
+						return true
+					}
+				}
+			}
+		}
+	}
+	return false
+}
